@@ -12,6 +12,7 @@ filter `i`; `appendN p n` appends `n` copies of `p`; `firedCount cid g` / `setCo
 `willFired cid` / `willSet cid` events of `g`; `stored lw cid` is 1 if `lw` holds a will for `cid`, else 0;
 `run2` / `Reachable2 cfg s`: fold of `step` over (operation, oracle choices) pairs from `init cfg`.
 -/
+import Proofs.Props.C16srv
 import Proofs.Lemmas.Router.Rp2_Will
 import Proofs.Lemmas.Router.Rp2_Examples
 import Proofs.Lemmas.Router.Rp2_Reach
@@ -193,5 +194,19 @@ example : ∃ s1 s2 fl, handleNewConnection (init exConfig) exSpecWill = .ok s1 
 example : ∃ s, Reachable2 exConfig s ∧ setCount "w" s.ghost = 1 ∧ firedCount "w" s.ghost = 1 ∧
     alookup "w" s.lastWills = none :=
   ⟨_, ⟨[(.connect exSpecWill, []), (.event 0 (.publishWill "w"), [.matches []])], rfl⟩, rfl, rfl, rfl⟩
+
+end C16
+
+namespace C16
+
+theorem will_event_emitted_exactly_when : type_of% @C16srv.will_event_emitted_exactly_when := @C16srv.will_event_emitted_exactly_when
+theorem resolution_only_after_link_end : type_of% @C16srv.resolution_only_after_link_end := @C16srv.resolution_only_after_link_end
+theorem disconnect_event_emitted_exactly_when : type_of% @C16srv.disconnect_event_emitted_exactly_when := @C16srv.disconnect_event_emitted_exactly_when
+theorem signalled_only_by_reconnect : type_of% @C16srv.signalled_only_by_reconnect := @C16srv.signalled_only_by_reconnect
+theorem will_delay_spec : type_of% @C16srv.will_delay_spec := @C16srv.will_delay_spec
+theorem timeout_exactly_at_deadline : type_of% @C16srv.timeout_exactly_at_deadline := @C16srv.timeout_exactly_at_deadline
+theorem stale_handler_poisons_listener : type_of% @C16srv.stale_handler_poisons_listener := @C16srv.stale_handler_poisons_listener
+theorem every_ended_link_resolves_properly_fails : type_of% @C16srv.every_ended_link_resolves_properly_fails := @C16srv.every_ended_link_resolves_properly_fails
+theorem every_ended_link_resolves_properly_partial : type_of% @C16srv.every_ended_link_resolves_properly_partial := @C16srv.every_ended_link_resolves_properly_partial
 
 end C16
